@@ -26,6 +26,14 @@ class C08(PropBase):
                 if rng.random() < 0.3 and items:
                     out.append(Case('match', [['s', rng.choice(items)], q], 'match', {}))
             out.append(Case('find_list_sids', [items, ls.search_from(rng, v, items)], 'find_as_sid', {}))
+            # an alias name used as an ordinary (open) value in last position: the last segment still expands
+            if v.alias and rng.random() < 0.5:
+                al = rng.choice(list(v.alias))
+                base = rng.choice(['hamlet/a/char', 'hamlet/a/prop', 'hamlet/s/sq001/sh0010/anim/v001/w'])
+                items2 = items + [base + '/' + m for m in v.alias[al]] + [base + '/' + al]
+                rng.shuffle(items2)
+                out.append(Case('find_list', [items2, base + '/' + al], 'alias-open', {}))
+                out.append(Case('find_list', [items2, base + '/' + al + ',x'], 'alias-open', {}))
         return out
     def phase2(self, rng, ctx, cases, impl_out, tier):
         # the unfolded forms of each search (C07's subject) are an input of this property's oracle
